@@ -1,4 +1,4 @@
-"""Properties not claimed (yet), with the reason. Entries for ids present in registry.PROPS are ignored."""
+"""Properties not claimed, with the reason. Entries for ids in registry.CLAIMED are ignored."""
 NA = {
     "C01": "quantifies over OS-thread interleavings through the whole submit->event loop->pool->coroutine pipeline; Kani has no threads and the pipeline (incl. real coroutine bodies, which need stack switching) is out of encodable size; the queue-level parts are decided under C03/C04/C06",
     "C15": "wall-clock overlap of real sleeping coroutines under dynamic-linker interposition and real stack switching; no source-level symbolic encoding exists for it",
@@ -6,5 +6,15 @@ NA = {
     "C24": "SIGSEGV/SIGBUS trap handler rewriting a real signal context to corosensei's trap entry; no encoding",
     "C27": "io_uring feature is not built in the pinned configuration and its behaviour is the kernel completion queue; no model available",
 }
-for _p in ["C02","C03","C04","C05","C06","C07","C08","C09","C10","C11","C12","C13","C16","C17","C18","C19","C20","C21","C23","C25","C26"]:
-    NA.setdefault(_p, "harness not built yet in this round (planned, see DESIGN.md §3); not claimed until its check runs green end-to-end")
+_UNFINISHED = "solver-based harness (Kani/CBMC) %s; not claimed until its quick check runs green end-to-end on the unchanged tree (DESIGN.md \u00a77)"
+NA.update({
+    "C03": _UNFINISHED % "for the one-pre-emption race on the shared queues exists but was not re-validated end-to-end in this round",
+    "C06": _UNFINISHED % "for the tick window / shared-first step exists but was not re-validated end-to-end in this round",
+    "C07": _UNFINISHED % "for the single-transition steps exists but was not re-validated end-to-end in this round",
+    "C09": _UNFINISHED % "for scripted coroutines exists but was not re-validated end-to-end in this round",
+    "C19": _UNFINISHED % "exists but is not sound yet: an un-stubbed getsockopt FFI call fails the 3-operation harness and the 2-operation harness does not finish in 600 s; the repeated-setsockopt assert it reports has not been replayed natively",
+    "C21": _UNFINISHED % "exists; two of three harnesses verify, the two-event-loop harness reports a counterexample that has no native replayer yet, so it is neither a verdict nor a finding",
+    "C26": _UNFINISHED % "for two racing first lookups exceeds the memory cap without a verdict",
+})
+for _p in ["C02", "C04", "C05", "C08", "C10", "C11", "C12", "C13", "C23"]:
+    NA.setdefault(_p, "no solver harness built: needs the queue/scheduler/pool encodings planned in DESIGN.md \u00a73, whose probes (about 6 M SAT variables per ordered-queue operation) put them beyond the time available; not claimed")
